@@ -332,7 +332,8 @@ Definition resolve_one (q : qarg) (size_map : list (string * Z)) (is_q : bool) :
     match q with
     | QId _ => lift (py_range 0 size 1)
     | QIdx _ [] => ierr KIndex
-    | QIdx _ (IdxSet vals :: _) => discrete_set_values vals
+    | QIdx _ (IdxSet vals :: _) =>
+        ids <- discrete_set_values vals;; iterM (fun i => validate_index i size) ids;;; ret ids
     | QIdx _ (IdxList [] :: _) => ierr KIndex
     | QIdx _ (IdxList (IRange a b c :: _) :: _) => range_ids a b c size
     | QIdx _ (IdxList (IExpr e :: _) :: _) =>
@@ -531,7 +532,7 @@ Definition visit_assignment (lv : qarg) (op : string) (rv : expr) : M (list stmt
 (* ---------- quantum statements ---------- *)
 Definition visit_measure (q : qarg) (target : option qarg) : M (list stmt) :=
   match target with
-  | None => ierr KAssert
+  | None => verr
   | Some t =>
       s <- getst;;
       guard (smemk (qarg_name q) (qreg_sizes s)) EValidation;;;
@@ -639,9 +640,14 @@ Definition visit_basic_gate (name : string) (args : list expr) (qubits : list qa
            | None => unm "opaque library gate"
            | Some (_, _, f) =>
                let gargs := map GA (map AVar (seq 0 (List.length params))) ++ map GQ tg in
+               (* a TypeError raised while the decomposition callable runs is re-raised as
+                  ValidationError *)
                match f gargs with
-               | None => ierr KType
-               | Some bgs => lift (mapR (stmt_of_bgate params) bgs)
+               | None => verr
+               | Some bgs => lift (match mapR (stmt_of_bgate params) bgs with
+                                   | Err (EInternal KType) => Err EValidation
+                                   | r => r
+                                   end)
                end
            end) targets;;
   update_depth_for_gate targets;;;
@@ -677,6 +683,9 @@ Definition visit_custom_gate (name : string) (args : list expr) (qubits : list q
       pvals <- mapMM (fun e => eval0 e false None) args;;
       let pmap := fold_left (fun acc p => sset (fst p) (snd p) acc) (combine (g_params gd) pvals) [] in
       let body := if inverse then rev (g_body gd) else g_body gd in
+      s <- getst;;
+      guard (negb (smem name (gstack s))) EValidation;;;
+      modify (fun s => with_gstack s (name :: gstack s));;;
       modify (push_ctx CGate);;;
       out <- concatMM (fun op =>
                match op with
@@ -687,7 +696,7 @@ Definition visit_custom_gate (name : string) (args : list expr) (qubits : list q
                                            | QIdx _ _ => verr
                                            | QId x => match sget x qmap with
                                                       | Some b => ret (qarg_of b)
-                                                      | None => ierr KKey
+                                                      | None => verr
                                                       end
                                            end) gqs;;
                    visit_rec (SGate (if inverse then mods ++ [MInv] else mods) gname gargs' gqs')
@@ -699,7 +708,7 @@ Definition visit_custom_gate (name : string) (args : list expr) (qubits : list q
                                                    | QIdx _ _ => verr
                                                    | QId x => match sget x qmap with
                                                               | Some b => ret (qarg_of b)
-                                                              | None => ierr KKey
+                                                              | None => verr
                                                               end
                                                    end) gqs
                             end);;
@@ -707,6 +716,7 @@ Definition visit_custom_gate (name : string) (args : list expr) (qubits : list q
                | _ => verr
                end) body;;
       modify pop_ctx;;;
+      modify (fun s => with_gstack s (tl (gstack s)));;;
       emit out
   end.
 
